@@ -430,6 +430,15 @@ impl MqttShared {
         }
     }
 
+    /// Remove registration made by `wait_response()` for a packet that was not sent
+    pub(super) fn cancel_response(&self, id: num::NonZeroU16) {
+        let mut queues = self.queues.borrow_mut();
+        if queues.inflight.back().is_some_and(|item| item.0 == id) {
+            queues.inflight.pop_back();
+            queues.inflight_ids.remove(&id);
+        }
+    }
+
     /// Register ack in response channel
     pub(super) fn wait_publish_response(
         &self,
